@@ -334,6 +334,11 @@ func syllableText(r *rand.Rand) []byte {
 	if r.Intn(2) == 0 {
 		rep, x = 3+r.Intn(5), r.Intn(4)
 	}
+	if r.Intn(2) == 0 {
+		// long chains, many copies, a long tandem repeat: the budget is gone
+		// in the first pass and the tandem group is finished in the second
+		k, g, rep, x = 13+r.Intn(8), 6+r.Intn(3), 5+r.Intn(5), r.Intn(5)
+	}
 	var seq []int
 	for j := 0; j < g; j++ {
 		for i := 0; i < k; i++ {
